@@ -6,7 +6,8 @@ p="$1"; wt="$2"; shift 2; flags="$*"
 cd "$wt" || exit 2
 build() { g++ -std=c++17 $flags -DONLY_C_LOCALE=1 -I include -I subprojects/hinnant-date/include demo/demo.cc src/common/*.cc src/server/*.cc src/client/*.cc -pthread -o demo/demo_chk 2>&1 | tail -3; }
 build; timeout 300 ./demo/demo_chk >/tmp/seed_$p.with 2>&1; rc_with=$?
-git stash -q; build; timeout 300 ./demo/demo_chk >/tmp/seed_$p.without 2>&1; rc_without=$?; git stash pop -q
+# (not git stash: worktrees of one repository share the stash, two confirmations running at the same time swapped their changes once)
+git diff -- src include > /tmp/seed_${SEED_DIR:-$p}.undo.diff; git apply -R /tmp/seed_${SEED_DIR:-$p}.undo.diff; build; timeout 300 ./demo/demo_chk >/tmp/seed_$p.without 2>&1; rc_without=$?; git apply /tmp/seed_${SEED_DIR:-$p}.undo.diff
 cmake --build _build 2>&1 | tail -1
 ctest --test-dir _build -j8 --timeout 900 2>&1 | grep -E "tests passed|FAILED|Failed" > /tmp/seed_$p.ctest
 echo "demo with change rc=$rc_with, without rc=$rc_without"; cat /tmp/seed_$p.ctest
